@@ -67,4 +67,42 @@ theorem nodup_dedupAux : ∀ (l seen : List String), (dedupAux seen l).Nodup
       have := (mem_dedupAux a l (a :: seen)).mp hmem
       exact this.2 (by simp)
 
+/-- in name order: no later element is smaller than an earlier one -/
+def Ascending (l : List String) : Prop := l.Pairwise (fun a b => ¬ b < a)
+
+theorem insertStr_ascending (s : String) : ∀ l : List String, Ascending l → Ascending (insertStr s l)
+  | [], _ => by simp [insertStr, Ascending]
+  | t :: ts, h => by
+    unfold insertStr
+    have ht := List.pairwise_cons.mp h
+    split
+    · rename_i hlt
+      refine List.pairwise_cons.mpr ⟨?_, h⟩
+      intro x hx
+      rcases List.mem_cons.mp hx with rfl | hx
+      · exact String.lt_asymm hlt
+      · intro hxs
+        exact ht.1 x hx (String.lt_trans hxs hlt)
+    · rename_i hnlt
+      refine List.pairwise_cons.mpr ⟨?_, insertStr_ascending s ts ht.2⟩
+      intro x hx
+      rcases (mem_insertStr s x ts).mp hx with rfl | hx
+      · exact hnlt
+      · exact ht.1 x hx
+
+theorem sortStr_ascending : ∀ l : List String, Ascending (sortStr l)
+  | [] => by simp [sortStr, Ascending]
+  | a :: l => by
+    have ih := sortStr_ascending l
+    simp only [sortStr, List.foldr_cons] at ih ⊢
+    exact insertStr_ascending a _ ih
+
+theorem dedupAux_sublist : ∀ (l seen : List String), (dedupAux seen l).Sublist l
+  | [], _ => by simp [dedupAux]
+  | a :: l, seen => by
+    unfold dedupAux
+    split
+    · exact (dedupAux_sublist l seen).cons a
+    · exact (dedupAux_sublist l (a :: seen)).cons_cons a
+
 end Just.Listing
